@@ -26,6 +26,10 @@ CHECKS = [
          technique='TLC on Expand.tla (session limit loop over create_guesses, invariants LimitExact/PrefixSoFar for all runs x all N in bound); real CrackingSession.run(limit=N) and pcfg_guesser.py subprocess runs validated by TrExpand (prefix, length, stdout = guess stream)',
          text='The limit arithmetic (falsy-0 test, == 0 vs <= 0, per-pre-terminal accounting) is exhaustively checked on the model; the real tool is run for N inside/at/after pre-terminals and Markov levels and its stdout compared line for line.',
          note='CLI runs keep stdin an open pipe (stdin conditions are C12). Only N >= 1 and loadable rulesets as quantified.'),
+    dict(pid='C14', cat=MC, design='5/C14',
+         technique='TLA+ I-layer Loader.tla (pre-scan with file cursor, seek, second loop, division, M filter, C insertion) model-checked by TLC for all files in bound x both flags; every model file loaded by the real _load_base_structures and judged by TLC (TrLoader: same structures in order, rescaled by 1/(1-P(M))); real queue streams with/without --skip_brute, loaded grammars with/without --all_lower, and pcfg_guesser.py start/--load pairs (flags from the save file) validated by TrLoader',
+         text='The cursor logic is exhaustively checked on the model (Markov line first/middle/last/absent/alone); the same files go through the real loader; stream-, grammar- and CLI-level traces are accepted or rejected by the TLA+ P-layer.',
+         note='Loaded probabilities are rationalised (limit_denominator 64) for TLC, rescaling compared with relative 1e-9; float near-ties (1e-12) count as ties for the order clause.'),
 ]
 
 NOT_YET = {
